@@ -49,6 +49,9 @@ def _linalg_args(lem, rng):
         N = int(rng.integers(0, 5)); K = int(rng.integers(0, N + 1))
         mk = gens.bits(rng, N)
         return {'g': gens.bits(rng, 2 * int(mk.sum()) + 2), 'x': gens.bits(rng, 2 * N + 2), 'mask': mk, 'N': N, 'K': K}
+    if name == 'rot_preserve':
+        N = int(rng.integers(0, 4))
+        return {'r': gens.bits(rng, 2 * N + 1), 'a': gens.bits(rng, 2 * N + 1), 'b': gens.bits(rng, 2 * N + 1), 'N': N}
     if name == 'acq_local':
         n = int(rng.integers(0, 4)); k = int(rng.integers(-1, n + 1))
         x = np.zeros(2 * n + 2, dtype=np.int64)
